@@ -79,7 +79,11 @@ namespace ip {
 				typename Protocol::endpoint(addr, static_cast<unsigned short>(port))
 				, hostname, service);
 			result_t res{t, ec, std::move(ips), std::move(handler) };
-			m_queue.insert(m_queue.begin(), std::move(res));
+			// keep the queue ordered by completion time. Lookups that are due
+			// already must not be held up by this one
+			auto const pos = std::find_if(m_queue.begin(), m_queue.end()
+				, [&](result_t const& r) { return r.completion_time > t; });
+			m_queue.insert(pos, std::move(res));
 			m_timer.expires_at(m_queue.front().completion_time);
 			m_timer.async_wait(aux::make_malloc(std::bind(&basic_resolver::on_lookup, this, _1)));
 			return;
